@@ -207,6 +207,12 @@ def spec_value(fx, val):
     return pc.exp_contents(fx.kind, val)
 
 
+def same_value(fx, a, b):
+    """equality of two spec values as Python values (dict equality ignores insertion order)"""
+    a, b = spec_value(fx, a), spec_value(fx, b)
+    return sorted(a) == sorted(b) if fx.kind == "dict" else a == b
+
+
 def run_case(fx, case, argform="list"):
     """single operation, in memory: outcome = model, and the parent is flagged modified whenever the model value changes"""
     op, exp = case["op"], case["exp"]
@@ -217,7 +223,7 @@ def run_case(fx, case, argform="list"):
     m = pc.outcome_mismatch(fx.kind, exp, exc, rk, ret, got, old, unkey=pc.unkey_str)
     if m:
         return "outcome", m
-    changed = pc.exp_contents(fx.kind, exp["val"]) != pc.exp_contents(fx.kind, case["val"]) or exp["rk"] == "popany"
+    changed = not same_value(fx, exp["val"], case["val"]) or exp["rk"] == "popany"
     if changed and not fx.flagged():
         return "untracked", "value changed %r -> %r but the parent is not flagged modified" % (old, got)
     if not fx.type_ok():
@@ -243,6 +249,8 @@ class MutDriver:
             fx.persist()
             got = fx.stored()
             want = spec_value(fx, to["db"])
+            if fx.kind == "dict":
+                got, want = sorted(got or []), sorted(want)
             if got != want:
                 return "stored", "after flush+commit a second connection reads %r, in-memory / spec value %r" % (got, want)
         elif n == "expire":
@@ -268,8 +276,8 @@ class MutDriver:
         want = spec_value(fx, to["val"])
         if got != want:
             return "value", "after %s the attribute holds %r, spec %r" % (n, got, want)
-        if to["dirty"] and not fx.flagged():
-            return "untracked", "after %s: value %r differs from what was last synchronised but the parent is not in session.dirty" % (n, got)
+        if not same_value(fx, to["val"], to["db"]) and not fx.flagged():
+            return "untracked", "after %s: value %r differs from the stored %r but the parent is not in session.dirty" % (n, got, to["db"])
         if not fx.type_ok():
             return "untracked", "after %s the attribute holds %s not linked to its parent" % (n, type(getattr(fx.obj, fx.attr)).__name__)
         return None
@@ -278,6 +286,8 @@ class MutDriver:
         # drain: flush whatever is pending; the stored value must be the in-memory value
         self.fx.persist()
         got, want = self.fx.stored(), spec_value(self.fx, state["val"])
+        if self.fx.kind == "dict":
+            got, want = sorted(got or []), sorted(want)
         if got != want:
             return "stored", "drain: after the final flush a second connection reads %r, in-memory / spec value %r" % (got, want)
         return None
